@@ -10,6 +10,7 @@ import (
 	"fmt"
 	"os"
 	"strings"
+	"sync"
 	"testing"
 
 	"github.com/emersion/go-message/textproto"
@@ -53,6 +54,7 @@ type Env struct {
 
 type Row struct {
 	ID   int    `json:"id"`
+	Ab   int    `json:"ab"` // alphabet of the row (harness-only data dimension, see alphabet.go)
 	Cfg  []Node `json:"cfg"`
 	Envs []Env  `json:"envs"`
 }
@@ -121,6 +123,12 @@ func (b *builder) nodes(ind int, ns []Node) {
 				t.fail = append(t.fail, Spell(k))
 			}
 			switch n.Tk {
+			case "identity":
+				// catch-all: table.identity answers for every key (Routing.tla: CatchAll)
+				b.line(ind, n.D+" identity {")
+			case "regexp_all":
+				// catch-all: a pattern every key matches, the empty key (null sender) included
+				b.line(ind, n.D+` regexp ".*" {`)
 			case "regexp", "regexp_repl":
 				// the documented match-check form (docs/reference/table/regexp.md), inline
 				alts := make([]string, len(t.keys))
@@ -187,7 +195,24 @@ type envOut struct {
 	Rc   []rcptOut `json:"rc"`
 	Tg   []delOut  `json:"tg"`
 	Fin  string    `json:"fin"` // "commit" | "abort" | "none" and its error code if any
+	Path string    `json:"path"` // "atomic" (Body) | "nonatomic" (BodyNonAtomic)
 	FinC int       `json:"finc"`
+}
+
+// statusRec is the module.StatusCollector of the non-atomic path: first failure status.
+type statusRec struct {
+	mu  sync.Mutex
+	n   int
+	err error
+}
+
+func (s *statusRec) SetStatus(rcptTo string, err error) {
+	s.mu.Lock()
+	defer s.mu.Unlock()
+	s.n++
+	if err != nil && s.err == nil {
+		s.err = err
+	}
 }
 
 func smtpCode(err error) (int, string) {
@@ -286,6 +311,7 @@ func runEnv(p *msgpipeline.MsgPipeline, rec *Recorder, rowID, k int, e Env) (out
 	out.Rc = []rcptOut{}
 	out.Tg = []delOut{}
 	out.Fin = "none"
+	out.Path = "atomic"
 	ctx := context.Background()
 	from := Spell(e.S)
 	meta := &module.MsgMetadata{ID: fmt.Sprintf("r%de%d", rowID, k), OriginalFrom: from, SMTPOpts: smtp.MailOptions{UTF8: true}}
@@ -312,7 +338,24 @@ func runEnv(p *msgpipeline.MsgPipeline, rec *Recorder, rowID, k int, e Env) (out
 			hdr.Add("Subject", "verif")
 			hdr.Add("From", "<"+from+">")
 			out.Fin = "commit"
-			if err := d.Body(ctx, hdr, buffer.MemoryBuffer{Slice: []byte("hello\r\n")}); err != nil {
+			// HARNESS-ONLY DATA DIMENSION: the two ways a message source hands over the body.
+			// Every second envelope takes the per-recipient path of LMTP and the queue
+			// (module.PartialDelivery.BodyNonAtomic, then always Commit) instead of Body; the
+			// model has one hand-over step and the same clause for both (EnvViol NotHandedOver:
+			// every delivery that got a recipient is committed).
+			if pd, ok := d.(module.PartialDelivery); ok && (rowID+k)%2 == 1 {
+				out.Path = "nonatomic"
+				sc := &statusRec{}
+				pd.BodyNonAtomic(ctx, sc, hdr, buffer.MemoryBuffer{Slice: []byte("hello\r\n")})
+				if sc.err != nil {
+					out.FinC, _ = smtpCode(sc.err)
+					out.Fin = "body-failed"
+				}
+				if err := d.Commit(ctx); err != nil && out.Fin == "commit" {
+					out.FinC, _ = smtpCode(err)
+					out.Fin = "commit-failed"
+				}
+			} else if err := d.Body(ctx, hdr, buffer.MemoryBuffer{Slice: []byte("hello\r\n")}); err != nil {
 				out.FinC, _ = smtpCode(err)
 				out.Fin = "body-failed"
 				d.Abort(ctx)
@@ -353,6 +396,7 @@ func runEnv(p *msgpipeline.MsgPipeline, rec *Recorder, rowID, k int, e Env) (out
 
 func runRow(row Row, raw rowRaw, w *bufio.Writer) {
 	tr := vtrace.New(w, row.ID)
+	UseAlphabet(row.Ab)
 	b := &builder{prefix: fmt.Sprintf("r%d", row.ID)}
 	b.nodes(0, row.Cfg)
 	text := b.sb.String()
@@ -382,7 +426,7 @@ func runRow(row Row, raw rowRaw, w *bufio.Writer) {
 	tr.Emit("Row", vtrace.Ev{
 		"in":   raw,
 		"out":  map[string]interface{}{"load": load, "res": res},
-		"text": text, "loaderr": errText,
+		"text": text, "loaderr": errText, "ab": row.Ab,
 	})
 }
 
@@ -390,6 +434,10 @@ func TestReplay(t *testing.T) {
 	in, out := os.Getenv("VERIF_IN"), os.Getenv("VERIF_OUT")
 	if in == "" || out == "" {
 		t.Skip("VERIF_IN / VERIF_OUT not set")
+	}
+	// harness self-test: the alphabets have the spelling structure the model assumes
+	if TestAlphabetShape(t); t.Failed() {
+		t.FailNow()
 	}
 	f, err := os.Open(in)
 	if err != nil {
